@@ -24,7 +24,8 @@ Beg(n) == << [e |-> "ABegin", s |-> SN(n), cfg |-> [noi |-> 1000]],
 Min(a, b) == IF a < b THEN a ELSE b
 RECURSIVE Begs(_, _)
 Begs(from, to) == IF from > to THEN <<>> ELSE Beg(from) \o Begs(from + 1, to)
-Chan(l, r) == LET n == Min(l, r) + 3 IN
+\* (with limits far above what a script can open only "not refused early" is exercised: 11 begins)
+Chan(l, r) == LET n == Min(Min(l, r), 8) + 3 IN
   Open(l, r, 0, 0) \o Begs(1, n) \o << [e |-> "AEnd", s |-> SN(1)], [e |-> "PFrame", perf |-> "end", ch |-> 11, f |-> [err |-> ""]] >> \o Begs(n + 1, n + 2)
 \* time-outs of 200 ms: advances just below, at, above, and far above
 Adv(ms) == [e |-> "Advance", ms |-> ms, step |-> 10]
